@@ -406,6 +406,17 @@ def run(ctx):
         ctx.obligation("translate:Calc_Energy", False, str(ex))
         ctx.violation("translate:Calc_Energy", "translator rejected the body of _Simu.Calc_Energy / Calc_Reaction (the energy/reaction theorems no longer apply to the source): %s" % ex,
                       {"construct": str(ex)}, found_input=False)
+    # relabelling step of Mesh.Merge, structural translation (fail closed)
+    try:
+        from translator import C20_energy as T_energy2
+        mr = T_energy2.read_merge_relabel(ctx.repo)
+        open(os.path.join(ctx.build, "Gen_Merge.v"), "w").write(T_energy2.emit_coq_merge(mr))
+        ctx.obligation("translate:Merge-relabel", True, "connected components by first occurrence")
+        files = files + ["Gen_Merge.v"] + ctx.copy_props("C20/C20_merge_source.v")
+    except Exception as ex:
+        ctx.obligation("translate:Merge-relabel", False, str(ex))
+        ctx.violation("translate:Merge-relabel", "the point relabelling step of Mesh.Merge is no longer the connected-components labelling the Merge theorems are about: %s" % ex,
+                      {"construct": str(ex)}, found_input=False)
     res = ctx.coq(files, timeout=600)
     if not res.ok:
         if res.failed_file == "C20_calc_energy.v":
